@@ -31,6 +31,11 @@ type Profile struct {
 	Tune func(cfg *EngineConfig, rng *Rand)
 	// Weights overrides the modules' share of generated operations in this profile.
 	Weights map[string]int
+	// Groups (swarm): in half of the generated runs one of these module groups, chosen from the
+	// run's PRNG, gets six or thirty times its share of the operations, so that chains of events that
+	// need many operations of a few modules (answers to a feed's requests, a pool's whole life)
+	// also complete in runs shared by a dozen workloads.
+	Groups [][]string
 }
 
 // Property ties a property id to the profile that explores it and to its evidence rules.
@@ -130,6 +135,7 @@ func Run(spec RunSpec) (res *RunResult) {
 
 	rng := NewRand(Mix(spec.Seed, "run", 0))
 	w.weights = prof.Weights
+	w.groups = prof.Groups
 	w.Mods = prof.Mods()
 	for _, m := range w.Mods {
 		w.modIdx[m.Name()] = m
@@ -766,6 +772,18 @@ func (w *World) generate(rng *Rand) {
 			weights[i] = v
 		}
 	}
+	if len(w.groups) > 0 && rng.Bool(0.5) {
+		g := w.groups[rng.Intn(len(w.groups))]
+		factor := []int{6, 30}[rng.Intn(2)]
+		for i, m := range w.Mods {
+			for _, name := range g {
+				if m.Name() == name {
+					weights[i] *= factor
+				}
+			}
+		}
+		w.Hit("swarm.group." + g[0])
+	}
 	for w.Height < mainEnd {
 		next := w.Height + 1
 		bp := &BlockPlan{DeltaNs: w.drawDelta(rng), Phase: "main"}
@@ -777,11 +795,23 @@ func (w *World) generate(rng *Rand) {
 		if w.Cfg.OneTxBlocks && k > 1 {
 			k = 1
 		}
-		for i := 0; i < k; i++ {
-			m := w.Mods[rng.Weighted(weights)]
-			tp := m.Gen(w, rng)
+		var burst []*TxPlan
+		for i := 0; i < k || len(burst) > 0; i++ {
+			var tp *TxPlan
+			if len(burst) > 0 {
+				tp, burst = burst[0], burst[1:]
+				i--
+			} else {
+				m := w.Mods[rng.Weighted(weights)]
+				tp = m.Gen(w, rng)
+			}
 			if tp == nil || len(tp.Ops) == 0 {
 				continue
+			}
+			if len(tp.Also) > 0 {
+				burst = append(burst, tp.Also...)
+				tp.Also = nil
+				w.Hit("transport.bursts")
 			}
 			assign(tp)
 			if tp.At > 0 {
